@@ -19,7 +19,7 @@ def run(tier):
     ck.rule = "one case per TLC-enumerated squared-exponential GP problem with <= 2 data points, evaluated at 3 query points singly and batched"
     ck.assumptions = ["only SquaredExponential supports derivative predictions (gradient_terms)"]
     GE.install_atoms()
-    probs = [c for c in GE.explore(ck) if c["gmean"]]
+    probs = [c for c in GE.explore(ck, focus="se") if c["gmean"]]
     for c in probs:
         pb = c["pb"]
         idn = GE.ident(pb)
